@@ -192,3 +192,143 @@ def install(reg, src):
                                        sp.den(a, ENV, sp.PV) == sp.den(b, ENV, sp.PV), kind="post")
                     c.on_exit.append(on_exit)
             mk()
+    install_scan(reg, src)
+
+
+# ======================================================================================= process-wide mutable state (scan)
+MUTATORS = {"append", "add", "update", "setdefault", "pop", "popitem", "clear", "extend", "insert", "remove", "discard",
+            "appendleft", "move_to_end", "__setitem__", "__delitem__"}
+CONTAINER_CALLS = {"dict", "list", "set", "defaultdict", "OrderedDict", "WeakValueDictionary", "WeakKeyDictionary", "deque",
+                   "Counter", "collections.defaultdict", "collections.OrderedDict", "collections.deque",
+                   "weakref.WeakValueDictionary", "weakref.WeakKeyDictionary"}
+
+
+def key_text(fn_, e):
+    """source text of a key expression; a local name is replaced by the expression it was assigned in the same function"""
+    if isinstance(e, ast.Name) and not isinstance(fn_, ast.Lambda):
+        for a_ in ast.walk(fn_):
+            if isinstance(a_, ast.Assign) and len(a_.targets) == 1 and isinstance(a_.targets[0], ast.Name) and a_.targets[0].id == e.id:
+                return ast.unparse(a_.value)
+    return ast.unparse(e)
+
+
+def process_wide_state(src):
+    """(memoised functions, written module-/class-level containers) of the current source.
+
+    A container is a module-level or class-level name bound to a dict / list / set display, comprehension or constructor call;
+    it counts as *written* when some function stores into it (subscript store / delete, augmented assignment, a mutating
+    method call) or rebinds it through `global`.  Read-only tables (operator tables, method sets) are not reported."""
+    memo = sorted(fi.key for fi in src.funcs.values()
+                  if any(d.split("(")[0].split(".")[-1] in ("lru_cache", "cache", "cached_property") for d in fi.decorators))
+    written = []
+    keys_of: dict[str, list[str]] = {}
+    for mod, mi in src.modules.items():
+        cands: dict[str, str] = {}
+
+        def is_container(v):
+            if isinstance(v, (ast.Dict, ast.List, ast.Set, ast.DictComp, ast.ListComp, ast.SetComp)):
+                return True
+            return isinstance(v, ast.Call) and ast.unparse(v.func) in CONTAINER_CALLS
+
+        def scan_body(body, prefix):
+            for st_ in body:
+                tg, val = None, None
+                if isinstance(st_, ast.Assign) and len(st_.targets) == 1 and isinstance(st_.targets[0], ast.Name):
+                    tg, val = st_.targets[0].id, st_.value
+                elif isinstance(st_, ast.AnnAssign) and isinstance(st_.target, ast.Name) and st_.value is not None:
+                    tg, val = st_.target.id, st_.value
+                if tg is not None and is_container(val):
+                    cands[prefix + tg] = tg
+                if isinstance(st_, ast.ClassDef):
+                    scan_body(st_.body, prefix + st_.name + ".")
+                if isinstance(st_, ast.If):
+                    scan_body(st_.body + st_.orelse, prefix)
+        scan_body(mi.tree.body, "")
+        if not cands:
+            continue
+        simple = {}
+        for full, nm in cands.items():
+            simple.setdefault(nm, full)
+        for fn_ in ast.walk(mi.tree):
+            if not isinstance(fn_, (ast.FunctionDef, ast.AsyncFunctionDef, ast.Lambda)):
+                continue
+            local_rebound = set()
+            if not isinstance(fn_, ast.Lambda):
+                globs = {n for g in ast.walk(fn_) if isinstance(g, ast.Global) for n in g.names}
+                for a_ in ast.walk(fn_):
+                    if isinstance(a_, ast.Assign):
+                        for t_ in a_.targets:
+                            if isinstance(t_, ast.Name) and t_.id not in globs:
+                                local_rebound.add(t_.id)
+                    if isinstance(a_, ast.arg):
+                        local_rebound.add(a_.arg)
+            else:
+                globs = set()
+
+            def base_name(e):
+                # X, cls.X, self.X, ClassName.X  ->  X
+                if isinstance(e, ast.Name):
+                    return e.id if e.id not in local_rebound else None
+                if isinstance(e, ast.Attribute) and isinstance(e.value, ast.Name):
+                    return e.attr
+                return None
+            for n_ in ast.walk(fn_):
+                hit = None
+                if isinstance(n_, (ast.Assign, ast.AugAssign, ast.Delete, ast.AnnAssign)):
+                    tgs = n_.targets if isinstance(n_, (ast.Assign, ast.Delete)) else [n_.target]
+                    for t_ in tgs:
+                        if isinstance(t_, ast.Subscript):
+                            hit = base_name(t_.value)
+                        elif isinstance(t_, ast.Name) and t_.id in globs:
+                            hit = t_.id
+                        elif isinstance(n_, ast.AugAssign) and isinstance(t_, (ast.Name, ast.Attribute)):
+                            hit = base_name(t_)
+                        if hit in simple:
+                            written.append(f"{mod}:{simple[hit]}")
+                            if isinstance(t_, ast.Subscript):
+                                keys_of.setdefault(f"{mod}:{simple[hit]}", []).append(key_text(fn_, t_.slice))
+                elif isinstance(n_, ast.Call) and isinstance(n_.func, ast.Attribute) and n_.func.attr in MUTATORS:
+                    hit = base_name(n_.func.value)
+                    if hit in simple:
+                        written.append(f"{mod}:{simple[hit]}")
+                        if n_.func.attr == "setdefault" and n_.args:
+                            keys_of.setdefault(f"{mod}:{simple[hit]}", []).append(key_text(fn_, n_.args[0]))
+    return memo, sorted(set(written)), keys_of
+
+
+def install_scan(reg, src):
+    memo, written, keys_of = process_wide_state(src)
+    with_lemma = {k.split("lemma:memo:")[1].split(":")[0] for k in reg.contracts if k.startswith("lemma:memo:")}
+    # registries filled once at import time by decorators are process-wide by design; they map a class to a rule and are
+    # keyed by class objects, not by model data (listed so that a new one is looked at, not silently accepted)
+    REGISTRIES = {"optyx.core.autodiff:_gradient_registry"}
+
+    @reg.contract("lemma:memo:process-wide-state", props=["C14"])
+    def _(c):
+        c.returns(T.none())
+
+        def on_exit(cc, outcome, val):
+            oid = cc.ip.cur_oid
+            for key in memo:
+                name = key.split(":")[1].split(".")[-1]
+                cc.path.oblige(oid(f"memoised function {key} has a memo-soundness lemma"), z3.BoolVal(name in with_lemma), kind="post",
+                               detail="every process-wide memo needs the lemma 'equal keys => the stored result is a correct answer'")
+            for w in written:
+                if w in REGISTRIES:
+                    cc.path.oblige(oid(f"module-level container {w} is a known registry"), z3.BoolVal(True), kind="post")
+                    continue
+                # a table keyed by id(...) cannot be sound (addresses are reused once the object is collected) and one keyed by
+                # a bare name identifies same-named variables of different models: refuted.  Any other new table has no
+                # memo-soundness lemma yet: the proof is incomplete, which is `undecided`, not a violation.
+                keys = keys_of.get(w, [])
+                bad = [k_ for k_ in keys if "id(" in k_.replace(" ", "") or k_.replace(" ", "").endswith(".name")
+                       or ".name," in k_.replace(" ", "") or ".name)" in k_.replace(" ", "")]
+                if bad:
+                    cc.path.oblige(oid(f"process-wide table {w}: keys identify the data they stand for"), z3.BoolVal(False), kind="post",
+                                   detail=f"written with key(s) {bad}: an id() is reused after garbage collection, a name is shared by "
+                                          "the variables of independent models")
+                else:
+                    cc.path.oblige(oid(f"process-wide table {w} has a memo-soundness lemma"), z3.BoolVal(False), kind="post", protocol=True,
+                                   detail="new table written at run time and shared by all models; keys " + repr(keys))
+            cc.path.oblige(oid("scan of process-wide state ran"), z3.BoolVal(True), kind="post")
+        c.on_exit.append(on_exit)
